@@ -902,3 +902,28 @@ Example ex_flaky_last_only_rejected :
 Proof. vm_compute. reflexivity. Qed.
 (* -r0 repeats twice (setRepeatCount) *)
 Example ex_r0 : length (o_reps (run true (mkScn (mkCfg true false false false 0) ex_tests))) = 2%nat. Proof. vm_compute. reflexivity. Qed.
+
+(* two readings of the exit-value clause that a flaky program tells apart from the property: "the last repetition decides" and
+   "the first repetition decides" are both false of the runner (and of the property); witnesses ex_flaky and its mirror image *)
+Definition exit_last_only_stmt : Prop :=
+  forall scn z, valid true scn = true -> c_cli (s_cfg scn) = true -> o_ret (run true scn) = Some z ->
+  (z = 0 <-> rep_is_ok (rep_want scn (eff_repeat (c_repeat (s_cfg scn)) - 1)) = true).
+Theorem exit_last_only_refuted : ~ exit_last_only_stmt.
+Proof.
+  intro H. destruct (H ex_flaky 2 ex_flaky_valid eq_refl ex_flaky_ret) as [_ B].
+  assert (E : rep_is_ok (rep_want ex_flaky (eff_repeat (c_repeat (s_cfg ex_flaky)) - 1)) = true) by (vm_compute; reflexivity).
+  specialize (B E). discriminate B.
+Qed.
+Definition ex_flaky_late : scenario :=
+  mkScn (mkCfg true false false false 3) [ mkRTest false true 10 [] [RIf (RGe 1) SThrowStd SCheck] [] [] [] ].
+Definition exit_first_only_stmt : Prop :=
+  forall scn z, valid true scn = true -> c_cli (s_cfg scn) = true -> o_ret (run true scn) = Some z ->
+  (z = 0 <-> rep_is_ok (rep_want scn 0) = true).
+Theorem exit_first_only_refuted : ~ exit_first_only_stmt.
+Proof.
+  intro H. assert (V : valid true ex_flaky_late = true) by (vm_compute; reflexivity).
+  assert (R : o_ret (run true ex_flaky_late) = Some 2) by (vm_compute; reflexivity).
+  destruct (H ex_flaky_late 2 V eq_refl R) as [_ B].
+  assert (E : rep_is_ok (rep_want ex_flaky_late 0) = true) by (vm_compute; reflexivity).
+  specialize (B E). discriminate B.
+Qed.
